@@ -273,6 +273,7 @@ func checkC01(w *World, r *Run) {
 	if c := c20Context(w, r); c != nil {
 		checkCacheMutators(w, r, c)
 	}
+	checkVersionOrderRanksNull(w, r)
 	checkRangeOverlapTests(w, r)
 	checkTxFinalization(w, r)
 	r.NotCovered("content equality of what is read back, sizes/ETags as values, the comparison with a reference S3 model over histories; part-store compositions (C15–C19)")
